@@ -306,8 +306,9 @@ class GLRParser(Parser):
 
                     new_results = [parent] + results
 
-                    if last_parent is None:
-                        last_parent = parent
+                    # Link closest to the reducing head on this path. It must
+                    # be tracked per path, not per processed node.
+                    path_last_parent = last_parent if last_parent is not None else parent
 
                     traversed = traversed or (
                         update_parent and update_parent.head == node
@@ -319,7 +320,7 @@ class GLRParser(Parser):
                                 parent.root,
                                 new_results,
                                 length,
-                                last_parent,
+                                path_last_parent,
                                 traversed,
                             )
                         )
@@ -330,7 +331,7 @@ class GLRParser(Parser):
                             production,
                             NodeNonTerm(None, new_results, production=production),
                             parent.start_position,
-                            last_parent.end_position,
+                            path_last_parent.end_position,
                         )
 
         if _verif.ON:
